@@ -388,6 +388,27 @@ def run(ctx):
                         case = {"base": kind, "cid_row": r + 1, "cid_cells": [c1 + 1, c2 + 1], "row_kind": row[0], "values": [v1, v2]}
                         ctx.case(case, True)
                         load_and_validate(ctx, base, rows, case, via_main=False)
+        if kind in ("delimited", "fixed"):
+            # ---- the same data cells under the other convention for numbers (decimal comma, no thousands separator)
+            comma = Base(ctx, kind)
+            comma.rows = [list(r) for r in comma.rows if r[1] != "Thousands separator"]
+            for r in comma.rows:
+                if r[1] == "Decimal separator":
+                    r[2] = ","
+                if r[0] == "F" and r[1] == "amount":
+                    r[2] = "1,50"  # (the rule keeps its dots: limits are written the same under every convention)
+            comma_data = [list(r) for r in BASE_DATA]
+            comma_data[1][1], comma_data[2][1] = "1,50", "1000,25"
+            for value in POOL + variations("1,50") + ["1.5", "1.234,5", ".5", "5.", "1,5.0", "1.000,25"]:
+                index += 1
+                if not ctx.mine(index) or not encodable(kind, value):
+                    continue
+                table = [list(x) for x in comma_data]
+                table[1][1] = value
+                case = {"base": kind + " with decimal comma", "data_row": 2, "data_cell": 2, "value": value}
+                ctx.case(case, True)
+                ctx.count("data.reads-under-decimal-comma")
+                hostile_data(ctx, comma, table, case, via_main=False)
         # ---- damaged containers (quick: delimited and fixed at every offset, archives sampled)
         index += container_faults(ctx, base, index)
         if kind == "delimited" and ctx.mine(0):
